@@ -362,9 +362,12 @@ Fixpoint parse_attributes (fuel : nat) (origin0 : token) (indent0 : Z) (d : elem
               | RErr e q => RErr e (keep q) | RCrash c => RCrash c
               | ROk (origin, p3) =>
                 let is_dyn := toktype_eqb (t_typ origin) TAttrDynamicValue in
-                let value := if is_dyn then t_lit origin
-                             else match go_unquote (t_lit origin) with Some v => v | None => [] end in
-                parse_attributes f origin0 indent0 (with_attrs d (omap_set (e_attrs d) name (mkAttr name is_bool is_dyn value origin))) p3
+                let value := if is_dyn then Some (t_lit origin) else go_unquote (t_lit origin) in
+                match value with
+                | None => RErr (node_errorf k0 (lit "invalid attribute value: " ++ token_string origin)) (keep p3)
+                | Some v =>
+                  parse_attributes f origin0 indent0 (with_attrs d (omap_set (e_attrs d) name (mkAttr name is_bool is_dyn v origin))) p3
+                end
               end
           end
         else
